@@ -2,7 +2,7 @@ import os
 ID = 'C12'
 LEVEL = 'proof'
 CONTRACT_MODULES = ['contracts.catfile']
-CONE = ['csep.core.catalogs.CSEPCatalog.load_ascii_catalogs', 'csep.load_catalog_forecast']
+CONE = ['csep.core.catalogs.CSEPCatalog.load_ascii_catalogs', 'csep.load_catalog_forecast', 'csep.load_stochastic_event_sets']
 ORACLE_MODULES = ['rt.oracles_catfc']
 BOUNDED = os.path.exists(os.path.join(os.path.dirname(__file__), '..', 'rt', 'bounded_C12.py'))
 FLOAT_MODEL = 'n/a: no arithmetic on the parsed numbers (they are carried as uninterpreted values of (row, column))'
@@ -11,8 +11,8 @@ TRUSTED = ['csv.reader yields the rows of the file in order; float() / int() / =
            'the generator is identified with the sequence of values it yields (eager execution)',
            'the class constructor cls(data=.., catalog_id=..) is an abstract record constructor (the real constructor: C14)',
            'the oracles in rt/ compute the expected outcome from the property statement, independently of the code under test', 'pyvc engine, z3 5.1']
-ASSUMPTIONS = ['proved: the decoding state machine of load_ascii_catalogs for files of any number of rows - rows grouped by catalog id, placeholder rows, omitted catalogs before the first id and in gaps (inner loop invariant), the final catalog, event order, field order of an event, ids 0..n-1 in order, rejection of decreasing ids; at most one header row, at least one data row, placeholder rows empty throughout',
-               'not proved: that float() / strptime return the written numbers and instants (Python / C15), the wrapper load_stochastic_event_sets, load_catalog_forecast for file names of other shapes than the six cases under contract (well-formed name_timestamp, caller-given name / start time, no time stamp, malformed second part, missing file: the forecast gets the file, the CSEP ASCII loader, name and start time parsed from the file name unless given, other keywords unchanged), files without trailing newline, more than one header line: bounded run-time contract']
+ASSUMPTIONS = ['proved: load_stochastic_event_sets (eager generator, while-loop invariant over the position in the loader\'s generator) yields exactly the catalogs of the loader of the requested type, in order, converted iff format is csep; the loader is called once with the file name and the keywords; ValueError for an unknown type before anything is loaded, for an unknown format at the first catalog', 'proved: the decoding state machine of load_ascii_catalogs for files of any number of rows - rows grouped by catalog id, placeholder rows, omitted catalogs before the first id and in gaps (inner loop invariant), the final catalog, event order, field order of an event, ids 0..n-1 in order, rejection of decreasing ids; at most one header row, at least one data row, placeholder rows empty throughout',
+               'not proved: that float() / strptime return the written numbers and instants (Python / C15), load_catalog_forecast for file names of other shapes than the six cases under contract (well-formed name_timestamp, caller-given name / start time, no time stamp, malformed second part, missing file: the forecast gets the file, the CSEP ASCII loader, name and start time parsed from the file name unless given, other keywords unchanged), files without trailing newline, more than one header line: bounded run-time contract']
 EXPLANATION = 'load_ascii_catalogs under contract: loop invariant over the rows (prev_id == id of the last row, ids non-decreasing so far, catalogs 0..prev_id-1 yielded as (k, ROWS(k, i)), pending events == ROWS(prev_id, i)), inner loop invariant over omitted catalogs, result == the catalogs 0..last id each with exactly its own non-placeholder rows in file order; second case: a file whose ids decrease cannot complete normally (ValueError); plus all encodings of n <= 4 (quick) / 5 (thorough) catalogs of 0..2 events x placeholder/omitted x header, random long-gap files by the bounded run-time contract'
 TECHNIQUE = 'contract on the real generator function (eager yield semantics), loop invariants for the row loop and the gap loops, abstract list sort for event lists, z3; bounded run-time contracts for the string layer and the wrappers'
 LEVEL_TEXT = 'proof of the decoding state machine for files of any length (string layer assumed); values of the parsed fields and the loader wrappers are bounded only'
